@@ -185,6 +185,11 @@ def parse_unit(path):
             ps = arg.split()
             unit.entries.append(("item", ps[0], ps[1:]))
             buf_target = None
+        elif d == "%sameitem":
+            # %sameitem A B : source item A must be token-identical to item B, which the unit emits for both
+            ps = arg.split()
+            unit.entries.append(("sameitem", ps[0], ps[1]))
+            buf_target = None
         elif d == "%derive":
             p, ds = arg.split(None, 1)
             unit.derives[p] = ds
